@@ -101,6 +101,14 @@ class Specs:
         return None
 
     def opaque_compare(self, a, b, op):
+        import ast as _ast
+
+        if a.name == "version":
+            gt = z3.Function("version_gt", z3.IntSort(), z3.IntSort(), z3.BoolSort())
+            if isinstance(op, _ast.Gt):
+                return gt(a.e, b.e)
+            if isinstance(op, _ast.Lt):
+                return gt(b.e, a.e)
         raise Unsupported(f"ordering of opaque {a.name}")
 
     def default_ignore_spec(self, ex, st):
@@ -146,6 +154,8 @@ def _i(v):
 def _len(ex, st, v):
     if isinstance(v, VOpt):
         v = v.val
+    if isinstance(v, VList) and isinstance(v.e, list):
+        return VInt(z3.Length(v.e[0]))
     if isinstance(v, (VStr, VBytes, VList)):
         return VInt(z3.Length(v.e)) if v.e is not None else VInt(0)
     if isinstance(v, VDict):
@@ -654,3 +664,62 @@ def _empty_strs(ex, st):
 @SPEC.fn("empty_bools")
 def _empty_bools(ex, st):
     return VList(TBool(), z3.Empty(z3.SeqSort(B)))
+
+
+@SPEC.fn("version_invalid")
+def _version_invalid(ex, st, s):
+    return VBool(z3.Function("version_invalid", S, B)(_s(s)))
+
+
+@SPEC.fn("logger_verbose")
+def _logger_verbose(ex, st):
+    return VBool(z3.Bool("logger_verbose_logging"))
+
+
+@SPEC.fn("str_of_optint")
+def _str_of_optint(ex, st, v):
+    if isinstance(v, VOpt):
+        return VStr(z3.If(v.isnone, z3.StringVal("None"), z3.IntToStr(v.val.e)))
+    return VStr(z3.IntToStr(v.e))
+
+
+@SPEC.fn("str_of_optstr")
+def _str_of_optstr(ex, st, v):
+    if isinstance(v, VOpt):
+        return VStr(z3.If(v.isnone, z3.StringVal("None"), v.val.e))
+    return VStr(v.e)
+
+
+HIST_OK_FIELDS = ["MHLHistory.hash_lists", "MHLHistory.child_histories", "MHLHashList.creator_info"]
+heap_fn("hist_ok", HIST_OK_FIELDS, B, lambda e: VBool(e))
+
+
+@SPEC.fn("L_hist_ok")
+def _L_hist_ok(ex, st, h):
+    """definition of the predicate hist_ok (every generation of the history and of all its descendants carries creator
+    info - what load_from_path + the reader establish for tool-written manifests), unfolded one level"""
+    ok = SPEC.funcs["hist_ok"]
+    hl = st.get_field(h.e, "MHLHistory.hash_lists", parse_type(ex.reg.field_types["MHLHistory.hash_lists"]))
+    ch = st.get_field(h.e, "MHLHistory.child_histories", parse_type(ex.reg.field_types["MHLHistory.child_histories"]))
+    j = z3.Int(fresh_name("j"))
+    ci = st.harr("MHLHashList.creator_info#0", z3.IntSort(), z3.IntSort())
+    body = z3.And(
+        z3.ForAll([j], z3.Implies(z3.And(0 <= j, j < z3.Length(hl.e)), z3.Select(ci, hl.e[j]) != 0)),
+        z3.ForAll([j], z3.Implies(z3.And(0 <= j, j < z3.Length(ch.e)), ok(ex, st, VRef("MHLHistory", ch.e[j])).e)),
+    )
+    return VBool(z3.Implies(ok(ex, st, h).e, body))
+
+
+SPEC.funcs["as_posix"] = lambda ex, st, p: VStr(z3.Function("as_posix", S, S)(_s(p)))
+iso_string = z3.Function("iso_string", I, B, S)
+
+
+@SPEC.fn("iso")
+def _iso(ex, st, d, keep=None):
+    k = keep.e if keep is not None else z3.BoolVal(False)
+    de = d.val.e if isinstance(d, VOpt) else d.e
+    return VStr(iso_string(de, k))
+
+
+SPEC.funcs["spec_match"] = lambda ex, st, sp, p: VBool(z3.Function("spec_match", I, S, B)(sp.e if not isinstance(sp, VOpt) else sp.val.e, _s(p)))
+SPEC.funcs["fs_child"] = lambda ex, st, d, n: VBool(z3.Function("fs_child", I, S, S, B)(st.fs, _s(d), _s(n)))
